@@ -1646,6 +1646,157 @@ def edge(rng, kind, p):
     return p, what
 
 
+# --------------------------------------------------------------------------- restated initializers
+#
+# The value_info / input / output entry of an initializer that RESTATES the tensor (elem_type = data_type, one
+# static dim per tensor dim) and says something the tensor cannot say: a TypeProto.denotation and/or
+# per-dimension denotations (with and without metadata / doc string).  serialize_graph_into writes exactly
+# such an entry (without denotations) for every weight, so "this entry tells nothing new" is the tempting
+# shortcut on load; the random stream above almost never hits the tensor's own dtype AND shape.
+
+TYPE_DENOTATIONS = ["TENSOR", "IMAGE", "AUDIO", "TEXT", "é"]
+DIM_DENOTATIONS = ["DATA_BATCH", "DATA_CHANNEL", "DATA_TIME", "DATA_FEATURE", "FILTER_IN_CHANNEL",
+                   "FILTER_OUT_CHANNEL", "FILTER_SPATIAL", "é"]
+RESTATED_DEN = ["none", "type", "dims", "both"]
+RESTATED_EXTRA = ["none", "meta", "doc", "meta+doc"]
+
+
+def restating_entry(rng, v, name, t, den, extra):
+    """v := the entry that repeats tensor t (+ denotations `den`, + `extra`).  Returns the den mode actually used
+    (a rank-0 tensor has no dimension to denote)."""
+    v.Clear()
+    v.name = name
+    tt = v.type.tensor_type
+    tt.elem_type = t.data_type
+    tt.shape.SetInParent()  # present, also for rank 0 (that is what the tensor says)
+    for d in t.dims:
+        tt.shape.dim.add().dim_value = d
+    if den in ("dims", "both") and not len(t.dims):
+        den = "type" if den == "both" or rng.random() < 0.5 else "none"
+    if den in ("type", "both"):
+        v.type.denotation = rng.choice(TYPE_DENOTATIONS)
+    if den in ("dims", "both"):
+        dims = list(tt.shape.dim)
+        some = dims if rng.random() < 0.5 else rng.sample(dims, rng.randrange(1, len(dims) + 1))
+        for d in some:
+            d.denotation = rng.choice(DIM_DENOTATIONS)
+    if "meta" in extra:
+        for k in rng.sample(WORDS, rng.choice([1, 2])):
+            v.metadata_props.add(key=k, value=rng.choice(["", "1", k, "é"]))
+    if "doc" in extra:
+        v.doc_string = rng.choice(["doc", "a longer doc string\nwith a newline", "é"])
+    return den
+
+
+def _graphs_with_depth(x, depth=0):
+    if isinstance(x, ModelProto):
+        yield from _graphs_with_depth(x.graph, 0)
+        for f in x.functions:
+            yield from _graphs_with_depth(f, 0)
+    elif isinstance(x, GraphProto):
+        yield x, depth
+        for n in x.node:
+            yield from _graphs_with_depth(n, depth + 1)
+    elif isinstance(x, FunctionProto):
+        for n in x.node:
+            yield from _graphs_with_depth(n, depth + 1)
+    elif isinstance(x, NodeProto):
+        for a in x.attribute:
+            yield from _graphs_with_depth(a, depth)
+    elif isinstance(x, AttributeProto):
+        if x.HasField("g"):
+            yield from _graphs_with_depth(x.g, depth)
+        for g in x.graphs:
+            yield from _graphs_with_depth(g, depth)
+
+
+def restate(rng, kind, p, counts):
+    """Rewrite the entries of (most) named initializers of every graph in p so that they restate their tensor.
+    plain initializer -> its value_info entry; initializer for a graph input -> the input entry (and sometimes an
+    E2 value_info entry next to it, never read); initializer that is a graph output -> the output entries.
+    Returns (proto, stream, label) or None when p has no named initializer."""
+    p = copy.deepcopy(p)
+    tags, edge_what = [], []
+    for g, depth in _graphs_with_depth(p, 1 if kind in ("node", "attr", "function") else 0):
+        where = "main" if depth == 0 else "sub"
+        in_names = {v.name for v in g.input}
+        out_names = {v.name for v in g.output}
+        seen = set()
+        for t in g.initializer:
+            if not t.name or t.name in seen or rng.random() < 0.2:
+                continue
+            seen.add(t.name)
+            den, extra = rng.choice(RESTATED_DEN), rng.choice(RESTATED_EXTRA + ["none", "none"])
+            if t.name in in_names:
+                role = "input"
+                for v in g.input:
+                    if v.name == t.name:
+                        den = restating_entry(rng, v, t.name, t, den, extra)
+                if rng.random() < 0.3:
+                    restating_entry(rng, g.value_info.add(), t.name, t, rng.choice(RESTATED_DEN), rng.choice(RESTATED_EXTRA))
+                    edge_what.append("E2:value-info-for-input")
+            elif t.name in out_names:
+                role = "output"
+                first = None
+                for v in g.output:
+                    if v.name == t.name:
+                        if first is None:
+                            den = restating_entry(rng, v, t.name, t, den, extra)
+                            first = v
+                        else:
+                            v.CopyFrom(first)  # identical entries of one name stay inside WFproto (consOutputs)
+            else:
+                role = "plain"
+                keep = [copy.deepcopy(v) for v in g.value_info if v.name != t.name]
+                new = ValueInfoProto()
+                den = restating_entry(rng, new, t.name, t, den, extra)
+                keep.insert(rng.randrange(len(keep) + 1), new)
+                del g.value_info[:]
+                g.value_info.extend(keep)
+            tags.append((role, where, den, extra))
+    if not tags:
+        return None
+    for role, where, den, extra in tags:
+        counts(f"restated-role={role}")
+        counts(f"restated-where={where}")
+        counts(f"restated-den={den}")
+        counts(f"restated-extra={extra}")
+        if role == "plain" and extra == "none":
+            # the entry that differs from what serialize_graph_into would write for the bare tensor ONLY by denotations
+            counts(f"restated-only-denotations[{where}]={den}")
+    label = "restated:" + "+".join(sorted({f"{r}/{w}/{d}/{e}" for r, w, d, e in tags}))[:200]
+    if edge_what:
+        return p, "edge", "+".join(sorted(set(edge_what))) + "+" + label
+    return p, "valid", label
+
+
+def restated_cases(ctx):
+    rng = ctx.rng
+    budget = {"graph": ctx.pick(160, 2000), "model": ctx.pick(160, 2000), "node": ctx.pick(40, 400),
+              "function": ctx.pick(30, 300), "attr": ctx.pick(30, 300)}
+    cases = []
+    for kind, n in budget.items():
+        for i in range(n):
+            want_sub = kind in ("graph", "model") and rng.random() < 0.4
+            for _ in range(40):
+                p = gen_case(rng, kind)
+                gs = list(_graphs_with_depth(p, 1 if kind in ("node", "attr", "function") else 0))
+                if any(len(g.initializer) and (d > 0 or not want_sub) for g, d in gs):
+                    break
+            else:
+                ctx.count("restated-base-without-initializer")
+                continue
+            r = restate(rng, kind, p, ctx.count)
+            if r is None:
+                ctx.count("restated-base-without-initializer")
+                continue
+            q, stream, label = r
+            cases.append((kind, q, stream, label))
+            if stream == "edge":
+                ctx.count("edge-family=E2")
+    return cases
+
+
 # --------------------------------------------------------------------------- corpus files
 
 
@@ -1908,6 +2059,9 @@ def run(ctx: Ctx) -> None:
         "structured random protos per message kind (valid stream: oracle + correspondence; edge stream = supported "
         "protos outside WFproto (also inside stand-alone nodes and GRAPH(S) attributes): oracle with the "
         "expected-normalisation list E1-E8 + correspondence, E2-E7 inside the widened theorems; invalid stream: correspondence only; unsupported stream: six fixed protos, histogram only) "
+        "+ 'restated' family: the value_info / input / output entry of an initializer repeats the tensor's dtype and "
+        "static shape and adds type / dimension denotations, with and without metadata / doc, in main graphs and "
+        "subgraphs (histogram restated-*) "
         "+ repo testdata + ONNX backend corpus; distinct by (kind, rendered proto); "
         "every case is non-trivial (a message with at least one field)"
     )
@@ -1948,6 +2102,9 @@ def run(ctx: Ctx) -> None:
     from harness.c02_scalar import run_scalar
 
     run_scalar(ctx)
+    # restated initializers: entries that repeat the tensor's dtype and static shape and add denotations
+    # (after everything else, so that the random streams above are what they were)
+    run_cases(ctx, restated_cases(ctx))
 
 
 def replay(ctx: Ctx, obj: dict) -> None:
